@@ -29,7 +29,30 @@ type Mem struct {
 	Reads  []uint32
 	Writes []Cell
 	Bad    bool // an access used an address >= 2^24
+	// Misrouted: the bus handed an access to the memory object attached over ANOTHER 16-byte cell (the
+	// whole space is mapped by two interleaved objects, even and odd cells, that share this image)
+	Misrouted bool
+	MisAddr   uint32
 }
+
+// cellProxy is one of the two memory objects the buses are populated with: it owns the 16-byte cells
+// of one parity and forwards to the shared image, noting accesses that belong to the other object.
+type cellProxy struct {
+	m      *Mem
+	parity uint32
+}
+
+func (p *cellProxy) check(a uint32) {
+	if a>>4&1 != p.parity && !p.m.Misrouted {
+		p.m.Misrouted, p.m.MisAddr = true, a
+	}
+}
+func (p *cellProxy) Read(a uint32) byte     { p.check(a); return p.m.Read(a) }
+func (p *cellProxy) Write(a uint32, v byte) { p.check(a); p.m.Write(a, v) }
+func (p *cellProxy) Shutdown()              {}
+func (p *cellProxy) Size() uint32           { return 0 }
+func (p *cellProxy) Clear()                 {}
+func (p *cellProxy) Dump(a uint32) []byte   { return nil }
 
 func (m *Mem) Base(a uint32) byte {
 	x := (a ^ m.Seed) * 2654435761
@@ -89,6 +112,7 @@ func (m *Mem) ClearLog() {
 	m.Reads = m.Reads[:0]
 	m.Writes = m.Writes[:0]
 	m.Bad = false
+	m.Misrouted = false
 }
 
 // FinalWrites collapses a write log to last-write-wins, sorted insertion not needed.
@@ -171,8 +195,11 @@ type Pri struct {
 func NewPri() *Pri {
 	b, _ := bus.New()
 	m := &Mem{}
-	if err := b.Attach(m, "all", 0, 0xFFFFFF); err != nil {
-		panic(err)
+	px := [2]*cellProxy{{m, 0}, {m, 1}}
+	for cell := uint32(0); cell < 1<<20; cell++ {
+		if err := b.Attach(px[cell&1], "cell", cell<<4, cell<<4|15); err != nil {
+			panic(err)
+		}
 	}
 	c, _ := cpu65c816.New(b)
 	return &Pri{b, c, m}
@@ -225,8 +252,11 @@ func NewAlt() *Alt {
 	c := &cpualt.CPU{}
 	c.Init()
 	m := &Mem{}
-	c.Bus.AttachReader(0, 0xFFFFFF, m.Read)
-	c.Bus.AttachWriter(0, 0xFFFFFF, m.Write)
+	px := [2]*cellProxy{{m, 0}, {m, 1}}
+	for cell := uint32(0); cell < 1<<20; cell++ {
+		c.Bus.AttachReader(cell<<4, cell<<4|15, px[cell&1].Read)
+		c.Bus.AttachWriter(cell<<4, cell<<4|15, px[cell&1].Write)
+	}
 	return &Alt{c, m}
 }
 func (p *Alt) Name() string { return "cpualt" }
